@@ -12,6 +12,7 @@ Observation (all API-level: callback arguments, exceptions by class, the public 
 paused / callbacks):
     <op events> <op events> ... | <final state of every Deferred>
   op events : comma-joined  Rd.k(arg)  user callback of add-operation k on Deferred d ran with arg
+                            !e         exception class e raised by a callback ESCAPED from the driving call
                             Fd         Deferred d accepted a result during this operation
                             A / S      AlreadyCalledError raised / late result silently swallowed
                             Kd         canceller of d invoked;  Xe  it raised E_e out of cancel();  RE RecursionError
@@ -27,10 +28,35 @@ from harness.common import coq_list
 _EXC: dict = {}
 
 
+# exception class numbers: 0..99 ordinary Exception subclasses; 100.. = BaseExceptions that are NOT Exceptions
+# (a callback raising any of them must still turn into a Failure result for the next errback)
+BASE_CLASSES = [100, 101, 102, 103, 104]
+
+
 def exc_class(n: int):
     if n not in _EXC:
-        _EXC[n] = type(f"E{n}", (Exception,), {})
+        if n == 100:
+            _EXC[n] = GeneratorExit
+        elif n == 101:
+            import asyncio
+
+            _EXC[n] = asyncio.CancelledError
+        elif n == 102:
+            _EXC[n] = SystemExit
+        elif n == 103:
+            _EXC[n] = KeyboardInterrupt
+        elif n >= 104:
+            _EXC[n] = type(f"E{n}", (BaseException,), {})
+        else:
+            _EXC[n] = type(f"E{n}", (Exception,), {})
     return _EXC[n]
+
+
+def exc_number(cls):
+    for n, c in _EXC.items():
+        if c is cls:
+            return n
+    return None
 
 
 def show_value(v, index) -> str:
@@ -68,6 +94,7 @@ class Runner:
             self.ds.append(defer.Deferred(self._canceller(i, c)))
         self.index = {id(d): i for i, d in enumerate(self.ds)}
         self.keep = []                   # keep Failures alive: no GC-time logging during a case
+        self.in_canceller = None
 
     def _canceller(self, i, c):
         if c[0] == "none":
@@ -80,6 +107,7 @@ class Runner:
             elif c[0] == "eb":
                 d.errback(exc_class(c[1])())
             elif c[0] == "raise":
+                self.in_canceller = exc_class(c[1])
                 raise exc_class(c[1])()
         return canceller
 
@@ -106,14 +134,8 @@ class Runner:
         self.keep.append(f)
         return f
 
-    def op(self, o) -> str:
+    def _drive(self, kind, d, di, o, before):
         defer = self.defer
-        self.events = []
-        before = [d.called for d in self.ds]
-        kind, di = o[0], o[1]
-        if di >= len(self.ds):
-            return "-"
-        d = self.ds[di]
         tail = None
         if kind == "add":
             k = self.nadd
@@ -145,17 +167,38 @@ class Runner:
         elif kind == "unpause":
             d.unpause()
         elif kind == "cancel":
+            self.in_canceller = None
             try:
                 d.cancel()
             except RecursionError:
                 tail = "RE"
             except Exception as e:
-                if type(e) in _EXC.values():
-                    tail = "X" + type(e).__name__[1:]
+                if self.in_canceller is not None and type(e) is self.in_canceller:
+                    tail = "X" + str(exc_number(type(e)))
                 else:
                     raise
         else:
             raise ValueError(kind)
+        return tail
+
+    def op(self, o) -> str:
+        defer = self.defer
+        self.events = []
+        before = [d.called for d in self.ds]
+        kind, di = o[0], o[1]
+        if di >= len(self.ds):
+            return "-"
+        d = self.ds[di]
+        tail = None
+        try:
+            tail = self._drive(kind, d, di, o, before)
+        except RecursionError:
+            tail = "RE"
+        except BaseException as e:  # noqa: B036 - the point is to see what escapes
+            n = exc_number(type(e))
+            if n is None:
+                raise
+            tail = f"!{n}"
         evs = list(self.events)
         fired = [f"F{i}" for i, x in enumerate(self.ds) if x.called and not before[i]]
         # the firing precedes every callback run; inside cancel() it follows the canceller invocation
@@ -236,7 +279,10 @@ def run_program(case) -> str:
         # consume failures so that nothing is reported at garbage collection
         for d in r.ds:
             if d.called and not d.paused and not isinstance(getattr(d, "result", None), r.defer.Deferred):
-                d.addErrback(lambda f: None)
+                try:
+                    d.addErrback(lambda f: None)
+                except BaseException:  # noqa: B036 - stranded callbacks of a broken tree may run (and raise) here
+                    pass
         return obs
 
 
@@ -308,8 +354,8 @@ def rand_beh(rng, nd, d, p_none=0.0):
     r = rng.random()
     if r < 0.6:
         return ["ret", rand_value(rng, nd, fwd_from=d)]
-    if r < 0.75:
-        return ["raise", rng.randrange(3)]
+    if r < 0.78:
+        return ["raise", rng.choice([0, 1, 2] + BASE_CLASSES)]
     return ["pass"]
 
 
@@ -343,6 +389,165 @@ def rand_program(rng, nd, nops, weights=None, cancellers=True):
         else:
             ops.append([k, d])
     return {"canc": canc, "ops": ops}
+
+
+# ---------------------------------------------------------------------------------------------------
+# reference interpreter: the documented rules, written recursively (not the implementation's loop, not the Coq
+# model).  Used as the property oracle of C01 and, for cancel(), of C03.
+
+_NO = object()
+
+
+class _RD:
+    def __init__(self, canc):
+        self.callbacks = []     # ("pair", k, cb, eb) | ("cont", index of the waiting Deferred)
+        self.result = _NO
+        self.called = False
+        self.paused = 0
+        self.swallow = False    # one late result is ignored after a canceller-less cancel()
+        self.canc = canc
+
+
+def ref_show(v):
+    if v is None:
+        return "N"
+    if isinstance(v, tuple):
+        if v[0] == "F":
+            return "EC" if v[1] == "C" else "E%d" % v[1]
+        return "D%d" % v[1]
+    return str(v)
+
+
+class Reference:
+    def __init__(self, canc):
+        self.ds = [_RD(c) for c in canc]
+        self.events = []
+        self.nadd = 0
+
+    # -- running callbacks: recursion where the implementation keeps an explicit stack
+    def run(self, i):
+        d = self.ds[i]
+        while not d.paused and d.callbacks:
+            item = d.callbacks.pop(0)
+            if item[0] == "cont":
+                c = self.ds[item[1]]
+                c.result, d.result = d.result, None      # hand the result over
+                c.paused -= 1                            # ... unpause the waiting Deferred and let it run
+                self.run(item[1])
+                continue
+            _, k, cb, eb = item
+            beh = eb if (isinstance(d.result, tuple) and d.result[0] == "F") else cb
+            if beh is not None:
+                self.events.append(f"R{i}.{k}({ref_show(d.result)})")
+                if beh[0] == "ret":
+                    v = beh[1]
+                    d.result = None if v[0] == "N" else v[1] if v[0] == "I" else (v[0], v[1])
+                elif beh[0] == "raise":
+                    d.result = ("F", beh[1])             # ANY exception class becomes a failure result
+            r = d.result
+            if isinstance(r, tuple) and r[0] == "D" and r[1] < len(self.ds):
+                x = self.ds[r[1]]
+                plain = x.result is not _NO and not (isinstance(x.result, tuple) and x.result[0] == "D")
+                if plain and not x.paused:
+                    d.result, x.result = x.result, None   # already has a result: take it
+                else:
+                    d.paused += 1                         # wait for it
+                    x.callbacks.append(("cont", i))
+                    return
+
+    def fire(self, i, v):
+        d = self.ds[i]
+        if d.called:
+            if d.swallow:
+                d.swallow = False
+                self.events.append("S")
+            else:
+                self.events.append("A")
+            return
+        d.called = True
+        d.result = v
+        self.events.append(f"F{i}")
+        self.run(i)
+
+    # -- cancel(): a fired Deferred whose current result is a Deferred forwards the cancellation to it, to any
+    #    depth; the innermost unfired Deferred is the one that is cancelled
+    def cancel_target(self, i):
+        """-> (target index | None when nothing is to be cancelled | 'RE' for a cycle, number of hops)"""
+        hops = 0
+        while True:
+            d = self.ds[i]
+            if not d.called:
+                return i, hops
+            r = d.result
+            if not (isinstance(r, tuple) and r[0] == "D" and r[1] < len(self.ds)):
+                return None, hops
+            i = r[1]
+            hops += 1
+            if hops > len(self.ds):
+                return "RE", hops
+
+    def cancel(self, i):
+        t, _ = self.cancel_target(i)
+        if t is None:
+            return
+        if t == "RE":
+            self.events.append("RE")
+            return
+        d = self.ds[t]
+        c = d.canc
+        if c[0] == "none":
+            d.swallow = True
+            self.fire(t, ("F", "C"))
+            return
+        self.events.append(f"K{t}")
+        if c[0] == "cb":
+            self.fire(t, c[1])
+        elif c[0] == "eb":
+            self.fire(t, ("F", c[1]))
+        elif c[0] == "raise":
+            self.events.append(f"X{c[1]}")
+        else:
+            self.fire(t, ("F", "C"))
+
+    def op(self, o) -> str:
+        self.events = []
+        kind, i = o[0], o[1]
+        if i >= len(self.ds):
+            return "-"
+        d = self.ds[i]
+        if kind == "add":
+            d.callbacks.append(("pair", self.nadd, o[2], o[3]))
+            self.nadd += 1
+            if d.called:
+                self.run(i)
+        elif kind == "cb":
+            self.fire(i, o[2])
+        elif kind == "eb":
+            self.fire(i, ("F", o[2]))
+        elif kind == "pause":
+            d.paused += 1
+        elif kind == "unpause":
+            d.paused -= 1
+            if not d.paused and d.called:
+                self.run(i)
+        elif kind == "cancel":
+            self.cancel(i)
+        else:
+            raise ValueError(kind)
+        return ",".join(self.events) if self.events else "-"
+
+    def final(self) -> str:
+        fin = []
+        for d in self.ds:
+            pend = [str(it[1]) for it in d.callbacks if it[0] == "pair"]
+            fin.append(f"{'T' if d.called else 'F'}:{'-' if d.result is _NO else ref_show(d.result)}:{d.paused}:"
+                       f"[{','.join(pend)}]")
+        return " ".join(fin)
+
+
+def reference(case) -> str:
+    r = Reference(case["canc"])
+    return " ".join(r.op(o) for o in case["ops"]) + " | " + r.final()
 
 
 # ---------------------------------------------------------------------------------------------------
